@@ -72,6 +72,8 @@ def random_scenarios(n, tier):
         if i % 150 == 7:
             ntp = 400 + i % 7            # more distinct #BPMxx ids than two base-16 digits (and than 359) can name
         bls = [r.choice([50000, 25000, 40000, 37500, 60000]) for _ in range(ntp)]
+        if i % 9 == 3 and ntp >= 2:
+            bls[1] = 10000               # a large upward tempo jump (600 bpm)
         tempo, t = [], 0
         for k, bl in enumerate(bls):
             tempo.append({"t": t, "bl": bl})
@@ -92,7 +94,8 @@ def random_scenarios(n, tier):
             j = r.randrange(0, max(1, seg_len * g // (4 * bls[k])))
             tt = tempo[k]["t"] + (4 * bls[k] * j) // g
             if not on_grid:
-                tt += r.choice([0, 7, -7, bls[k] // 400])
+                # a few ticks off, 1/400 beat late, or 0.0045 beat before the next beat (rounds up to it)
+                tt += r.choice([0, 7, -7, bls[k] // 400, -(bls[k] * 9) // 2000])
             c = r.randrange(ncol)
             if tt < 0:
                 continue
@@ -107,6 +110,18 @@ def random_scenarios(n, tier):
                     continue
                 lane.setdefault(c, []).append((tt, tt))
                 hits.append({"t": tt, "c": c, "sample": r.choice(["a.wav", "b.wav", "zz.wav"])})
+        if not on_grid and ntp >= 2:
+            # a hit 0.9 ms before a tempo change (it belongs to the old tempo's grid)
+            c = r.randrange(ncol)
+            tt = tempo[1]["t"] - 90
+            if free(c, tt, tt):
+                lane.setdefault(c, []).append((tt, tt))
+                hits.append({"t": tt, "c": c, "sample": "a.wav"})
+        if i % 40 == 11:
+            # late in a long chart: notes 1/64 beat apart in different lanes around 400 s
+            tempo, on_grid, holds = [{"t": 0, "bl": 25000}], True, []
+            hits = [{"t": 1600 * 25000 + (j * 25000) // 64 * 1, "c": j % ncol, "sample": "a.wav"} for j in range(0, 6) if (j * 25000) % 64 == 0 or True]
+            hits = [dict(h, t=1600 * 25000 + (j * 25000 * 3) // 192) for j, h in enumerate(hits)]
         out.append({"id": f"r{i}", "layout": lay, "hits": hits, "holds": holds, "tempo": tempo, "on_grid": on_grid,
                     "kind": "random", "rewrite": i % 6 == 4, "shuffle": i % 2 == 0, "unknown_samples": i % 5 == 0, "via": i % 4 == 1})
     return out
